@@ -1270,3 +1270,252 @@ func (fi *FuncInfo) calleeOfValue(e ast.Expr) *types.Func {
 	}
 	return nil
 }
+
+func init() {
+	register("C20.R10", "last-element idioms cannot index out of range: wherever a slice is indexed or cut by an expression built from its own length, the expression is len(S)-1 and the slice is known to be non-empty there (a loop that runs while it is non-empty, a dominating length test, or the left operand of the && / || the access sits in)",
+		func(c *Ctx, r *R) {
+			n := 0
+			perFn := map[string]int{}
+			for _, fi := range c.all {
+				fi := fi
+				fi.inspect(fi.Decl.Body, func(nd ast.Node) bool {
+					var seq, idx ast.Expr
+					isCut := false
+					switch x := nd.(type) {
+					case *ast.IndexExpr:
+						seq, idx = x.X, x.Index
+					case *ast.SliceExpr:
+						if x.High == nil {
+							return true
+						}
+						seq, idx, isCut = x.X, x.High, true
+					default:
+						return true
+					}
+					if t := fi.Info.TypeOf(seq); t == nil {
+						return true
+					} else if _, isSlice := t.Underlying().(*types.Slice); !isSlice {
+						return true
+					}
+					isLen := func(e ast.Expr) bool {
+						if e == nil {
+							return false
+						}
+						if l := fi.isBuiltin(e, "len"); l != nil && fi.sameExpr(l.Args[0], seq) {
+							return true
+						}
+						if lv := fi.varOf(e); lv != nil && len(fi.defs[lv]) > 0 {
+							for _, d := range fi.defs[lv] {
+								if l := fi.isBuiltin(d.rhs, "len"); l == nil || !fi.sameExpr(l.Args[0], seq) {
+									return false
+								}
+							}
+							return true
+						}
+						return false
+					}
+					mentions := false
+					ast.Inspect(idx, func(m ast.Node) bool {
+						if isLen(asExpr(m)) {
+							mentions = true
+						}
+						return true
+					})
+					if !mentions {
+						return true
+					}
+					if isCut && isLen(ast.Unparen(idx)) {
+						return true // S[:len(S)] is always in range
+					}
+					n++
+					perFn[fi.Name]++
+					key := fi.Name + "/last-element:" + roleShort(fi, seq) + "#" + itoa(perFn[fi.Name])
+					be, ok := ast.Unparen(idx).(*ast.BinaryExpr)
+					if !ok || be.Op != token.SUB || types.ExprString(be.Y) != "1" || !isLen(be.X) {
+						r.Bad(key, nd.Pos(), "the position is built from the slice's length but is not len-1: %s", exprShort(idx))
+						return true
+					}
+					nonEmpty := false
+					for _, g := range fi.guardsWithShortCircuit(nd) {
+						if x, ne, isL := fi.lenTest(g); isL && ne && fi.sameExpr(x, seq) {
+							nonEmpty = true
+						}
+						if b2, isB := ast.Unparen(g.Expr).(*ast.BinaryExpr); isB && !g.Neg && b2.Op == token.GTR && types.ExprString(b2.Y) == "0" && isLen(b2.X) {
+							nonEmpty = true
+						}
+					}
+					for l := fi.enclosingLoop(nd); l != nil && !nonEmpty; l = fi.enclosingLoop(l) {
+						if f, ok := l.(*ast.ForStmt); ok && f.Cond != nil {
+							if x, ne, isL := fi.lenTest(Cond{Kind: "bool", Expr: f.Cond}); isL && ne && fi.sameExpr(x, seq) {
+								nonEmpty = true
+							}
+							if b2, isB := ast.Unparen(f.Cond).(*ast.BinaryExpr); isB && b2.Op == token.GTR && types.ExprString(b2.Y) == "0" && isLen(b2.X) {
+								nonEmpty = true
+							}
+						}
+					}
+					// the slice was appended to just before, in straight line: x = append(x, …); … x[len(x)-1]
+					if !nonEmpty {
+						if v := fi.varOf(seq); v != nil {
+							for _, d := range fi.defs[v] {
+								if ap := fi.isBuiltin(d.rhs, "append"); ap != nil && len(ap.Args) >= 2 && d.node != nil && fi.precedes(fi.stmtOf(d.node), nd) {
+									nonEmpty = true
+								}
+							}
+						}
+					}
+					// a pop that mirrors a push made under the same test (pre- and post-order callbacks of one traversal)
+					if !nonEmpty {
+						if v := fi.varOf(seq); v != nil {
+							var popTest ast.Expr
+							for _, g := range fi.Guards(nd) {
+								if x, isNil, isT := fi.nilTest(g); isT && !isNil {
+									popTest = fi.expandLocals(x)
+								}
+							}
+							if popTest != nil {
+								for _, d := range fi.defs[v] {
+									if ap := fi.isBuiltin(d.rhs, "append"); ap != nil && d.node != nil {
+										for _, g := range fi.Guards(d.node) {
+											if x, isNil, isT := fi.nilTest(g); isT && !isNil && exprShort(fi.expandLocals(x)) == exprShort(popTest) {
+												nonEmpty = true
+											}
+										}
+									}
+								}
+							}
+						}
+					}
+					// an element popped from a stack onto which only non-empty slices are ever put
+					if !nonEmpty {
+						if v := fi.varOf(seq); v != nil {
+							if d := fi.singleDef(v); d != nil && d.rhs != nil {
+								if ix, ok := ast.Unparen(d.rhs).(*ast.IndexExpr); ok {
+									if stack := fi.varOf(ix.X); stack != nil {
+										all, any := true, false
+										nonEmptyValue := func(e ast.Expr) bool {
+											e = fi.deref(e)
+											if cl, ok := ast.Unparen(e).(*ast.CompositeLit); ok {
+												return len(cl.Elts) > 0
+											}
+											if ap := fi.isBuiltin(e, "append"); ap != nil {
+												return len(ap.Args) >= 2 && !ap.Ellipsis.IsValid()
+											}
+											return false
+										}
+										for _, sd := range fi.defs[stack] {
+											if sd.rhs == nil {
+												continue
+											}
+											switch x := ast.Unparen(sd.rhs).(type) {
+											case *ast.CompositeLit:
+												for _, el := range x.Elts {
+													any = true
+													if !nonEmptyValue(el) {
+														all = false
+													}
+												}
+											case *ast.CallExpr:
+												if ap := fi.isBuiltin(x, "append"); ap != nil && !ap.Ellipsis.IsValid() {
+													for _, el := range ap.Args[1:] {
+														any = true
+														if !nonEmptyValue(el) {
+															all = false
+														}
+													}
+												} else {
+													all = false
+												}
+											case *ast.SliceExpr:
+												// the pop itself
+											default:
+												all = false
+											}
+										}
+										if all && any {
+											nonEmpty = true
+										}
+									}
+								}
+							}
+						}
+					}
+					r.Check(nonEmpty, key, nd.Pos(), "%s is non-empty where its last element is taken", exprShort(seq))
+					return true
+				})
+			}
+			r.Floor("last-element accesses", n, 10)
+		})
+}
+
+func init() {
+	register("C20.R11", "nothing is dereferenced on the edge on which it is known to be nil: a field selection, method call or dereference through a pointer- or interface-typed variable (or through the same call expression) is never dominated by a test that says exactly that value is nil — the contradiction an inverted nil test produces",
+		func(c *Ctx, r *R) {
+			n, bad := 0, 0
+			for _, fi := range c.all {
+				fi := fi
+				fi.inspect(fi.Decl.Body, func(nd ast.Node) bool {
+					var base ast.Expr
+					switch x := nd.(type) {
+					case *ast.SelectorExpr:
+						base = x.X
+					case *ast.StarExpr:
+						base = x.X
+					default:
+						return true
+					}
+					t := fi.Info.TypeOf(base)
+					if t == nil {
+						return true
+					}
+					switch t.Underlying().(type) {
+					case *types.Pointer, *types.Interface:
+					default:
+						return true
+					}
+					if _, isPkg := fi.Info.Uses[identOf(base)].(*types.PkgName); isPkg {
+						return true
+					}
+					n++
+					v := fi.varOf(base)
+					for _, g := range fi.guardsWithShortCircuit(nd) {
+						x, isNil, isT := fi.nilTest(g)
+						if !isT || !isNil {
+							continue
+						}
+						same := false
+						if v != nil && fi.varOf(x) == v {
+							// the variable must not be assigned between the test and the use
+							from := 0
+							if is, ok := g.At.(*ast.IfStmt); ok {
+								from = startOf(is.Cond)
+							} else if g.At != nil {
+								from = startOf(g.At)
+							}
+							again := false
+							for _, d := range fi.defs[v] {
+								if d.node != nil && startOf(d.node) > from && startOf(d.node) < startOf(nd) {
+									again = true
+								}
+							}
+							same = !again && from > 0
+						} else if v == nil && fi.sameExpr(x, base) && pureArg(base) {
+							same = true
+						}
+						if same {
+							bad++
+							r.Bad(fi.Name+"/nil-deref:"+roleShort(fi, base)+"#"+itoa(bad), nd.Pos(), "%s is dereferenced although %s == nil holds here", exprShort(base), exprShort(x))
+						}
+					}
+					return true
+				})
+			}
+			r.Floor("dereferences through pointers and interfaces", n, 300)
+			r.Ok("no-contradiction", 0, "no dereference sits on the nil edge of a test of the same value (%d dereferences)", n)
+		})
+}
+
+func identOf(e ast.Expr) *ast.Ident {
+	id, _ := ast.Unparen(e).(*ast.Ident)
+	return id
+}
